@@ -245,15 +245,23 @@ class FreqSplit(Unit):
                  "pulsarbat.core:RadioSignal.__getitem__", "pulsarbat.core:RadioSignal.channel_freqs")
     witnesses = 1
 
-    def __init__(self, clsname, nchan, cuts, align, rate="kHz", mode="ok", axis="freq"):
+    def __init__(self, clsname, nchan, cuts, align, rate="kHz", mode="ok", axis="freq", not0=()):
         self.clsname, self.nchan, self.cuts, self.align, self.rate, self.mode, self.axis = clsname, nchan, tuple(cuts), align, rate, mode, axis
-        self.name = f"fsplit-{clsname}-n{nchan}-c{'_'.join(map(str, cuts))}-{align}-{mode}-{axis}"
-        self.bounds = {"class": clsname, "nchan": nchan, "cuts": list(cuts), "freq_align": align, "mode": mode, "axis": str(axis)}
+        self.not0 = tuple(not0)            # pieces handed over without a start time
+        self.name = f"fsplit-{clsname}-n{nchan}-c{'_'.join(map(str, cuts))}-{align}-{mode}-{axis}" + \
+                    (f"-not0_{'_'.join(map(str, not0))}" if not0 else "")
+        self.bounds = {"class": clsname, "nchan": nchan, "cuts": list(cuts), "freq_align": align, "mode": mode, "axis": str(axis),
+                       "pieces_without_start_time": list(not0)}
 
     def build(self, S):
         N = S.int("N", 0, 2**40)
         sig, dt, t0v = mk_sig(S, self.clsname, N, self.rate, self.align, nchan=self.nchan)
-        return {"sig": sig, "N": N}
+        d = None
+        if self.mode == "t0-differs":
+            d = S.real("delta")
+            S.assume(z3.Or(rterm(d) >= RV(dt), -rterm(d) >= RV(dt)))
+            S.assume(z3.And(rterm(d) < 10**6, rterm(d) > -10**6))
+        return {"sig": sig, "N": N, "d": d, "S": S}
 
     def call(self, a):
         sig = a["sig"]
@@ -270,6 +278,11 @@ class FreqSplit(Unit):
             pieces = [pieces[0], pieces[0]] + pieces[2:]
         elif self.mode == "inner-swap":     # two inner pieces exchanged (first and last labels and the channel count unchanged)
             pieces = [pieces[0], pieces[2], pieces[1]] + pieces[3:]
+        elif self.mode == "t0-differs":     # contiguous in frequency, but the last piece starts a sample or more off
+            last = pieces[-1]
+            pieces[-1] = type(last).like(last, start_time=last.start_time + a["S"].quantity(a["d"], u.s))
+        for i in self.not0:
+            pieces[i] = type(pieces[i]).like(pieces[i], start_time=None)
         return pb.concatenate(pieces, axis=self.axis)
 
     def spec(self, S, a, out):
@@ -321,8 +334,8 @@ def units(tier):
     us.append(Reject("RadioSignal", "labels", which=1))
     us.append(Reject("FullStokesSignal", "labels", which=0, axis=0))
     us.append(Reject("DualPolarizationSignal", "t0-other-axis", axis=2))
-    us.append(Reject("RadioSignal", "t0-other-axis", axis=1))
-    us.append(Reject("RadioSignal", "t0-other-axis", axis="freq"))
+    # (start times that disagree on a FREQUENCY join: FreqSplit mode "t0-differs" below - two copies of one signal are not
+    #  contiguous in frequency and would be refused for that reason alone)
     for cn in ("RadioSignal", "BasebandSignal", "DualPolarizationSignal", "FullStokesSignal"):
         for nchan in ((2, 3, 4) if tier == "quick" else (2, 3, 4, 5, 6)):
             for al in ("center", "bottom", "top"):
@@ -341,4 +354,10 @@ def units(tier):
                 us.append(FreqSplit(cn, nchan, (1, 2), "center", next(rates), mode="inner-dup", axis=("freq", 1)[nchan % 2]))
             if nchan >= 4:
                 us.append(FreqSplit(cn, nchan, (1, 2, 3), "top", next(rates), mode="inner-swap"))
+            if nchan == 3:
+                # pieces without a start time (the result takes it from the pieces that have one), and start times that disagree
+                us.append(FreqSplit(cn, 3, (1, 2), "center", next(rates), mode="ok", not0=(0,)))
+                us.append(FreqSplit(cn, 3, (1, 2), "bottom", next(rates), mode="ok", not0=(1, 2), axis=1))
+                us.append(FreqSplit(cn, 3, (1, 2), "top", next(rates), mode="t0-differs"))
+                us.append(FreqSplit(cn, 3, (1, 2), "center", next(rates), mode="t0-differs", not0=(0,), axis=1))
     return us
